@@ -348,7 +348,7 @@ Proof.
   induction vals as [|v vals IH]; intros i j; cbn [gettsecidx_from]; [discriminate|].
   destruct v as [| | | |[s|]|]; try discriminate.
   destruct (c_title s) as [ti|]; [|discriminate].
-  destruct (name_eqb nocase t ti).
+  destruct (name_eqb (nocase || cflag s CFGF_NOCASE) t ti).
   - intros H; inversion H; subst. cbn [length]. lia.
   - intros H. apply IH in H. cbn [length]. lia.
 Qed.
